@@ -346,7 +346,7 @@ class C02(Oracle):
         if sto is None or sto.raw or sto.route not in ('ctor', 'call', 'set_val', 'setitem'):
             return
         val = st.extra.get('val')
-        if val is None or V.is_string_spec(val):
+        if val is None or V.is_string_spec(val) or val[0] == 'x':
             return
         if st.outcome == 'aborted':
             return
